@@ -915,3 +915,9 @@ mod tests {
         assert!(matches!(backend.recv_header(), Err(Error::Disconnected)));
     }
 }
+
+// Verification harnesses (Kani); the sources live outside this repository.
+#[cfg(feature = "verif")]
+mod verif {
+    include!(concat!(env!("VHOST_VERIF_DIR"), "/harness/vu_connection.rs"));
+}
